@@ -473,6 +473,14 @@ class PE:
                 return ("b", 33 <= x <= 126)
             if tail == "is_ascii":
                 return ("b", x < 128)
+            if tail == "is_ascii_lowercase":
+                return ("b", 0x61 <= x <= 0x7A)
+            if tail == "is_ascii_uppercase":
+                return ("b", 0x41 <= x <= 0x5A)
+            if tail == "to_ascii_lowercase":
+                return ("i", x + 32 if 0x41 <= x <= 0x5A else x)
+            if tail == "to_ascii_uppercase":
+                return ("i", x - 32 if 0x61 <= x <= 0x7A else x)
             if tail == "is_control":
                 return ("b", x < 0x20 or 0x7F <= x <= 0x9F)
             if tail == "is_whitespace":
